@@ -30,7 +30,9 @@ BOXES = [
     ((4, 0, 0), (-1.5, 4, 0), (1, -1, 4)),           # triclinic, negative off-diagonal
     ((5, 0, 0), (2.5, 4, 0), (0, 0, 6)),             # monoclinic, 60-degree-like shear
     ((4, 0, 0), (2, 3.5, 0), (2, 1, 3)),             # triclinic, strong shear
+    ((6, -8, 0), (12, 9, 0), (0, 0, 20)),            # orthorhombic (10 x 15 x 20) rotated about z: not axis-aligned
 ]
+QUICK_BOXES = (0, 1, 2, 3, 4, 6)
 
 
 def mods():
@@ -73,87 +75,127 @@ def smallest_height2(bi):
 
 
 def is_orthorhombic(bi):
+    """pairwise orthogonal cell vectors (any orientation)"""
     b = frac_box(bi)
-    return all(b[i][j] == 0 for i in range(3) for j in range(3) if i != j)
+    return all(sum(b[i][t] * b[j][t] for t in range(3)) == 0 for i, j in ((0, 1), (0, 2), (1, 2)))
+
+
+SHAPES = ["(3,) (3,)", "(2,3) (3,)", "(3,) (2,3)", "(2,3) (2,3)", "(1,2,3) (2,3)"]
+
+
+def _mk(points, shape):
+    """points: list of 3-lists of CRat; shape code '(3,)', '(2,3)', '(1,2,3)'"""
+    if shape == "(3,)":
+        return rnp.RNP.array(points[0])
+    if shape == "(2,3)":
+        return rnp.RNP.array(points[:2])
+    return rnp.RNP.array([points[:2]])
+
+
+def _rows(arr):
+    d = arr.data
+    if not isinstance(d[0], list):
+        return [d]
+    while isinstance(d[0][0], list):
+        d = d[0]
+    return d
 
 
 def real_displacement(w):
     import numpy as np
     import biotite.structure as struc
-    bi = w["bi"]
-    box = np.array(BOXES[bi], dtype=np.float64)
-    p = np.array(w["p"], dtype=np.float64)
-    q = np.array(w["q"], dtype=np.float64)
-    # float32 inputs are what `coord()` makes of arrays: all values here are dyadic and small, so they are exact
-    d = struc.displacement(p.astype(np.float32), q.astype(np.float32), box=box.astype(np.float32)).astype(np.float64)
-    diff = q - p
-    fr = np.linalg.solve(box.T, (d - diff))
-    if np.abs(fr - np.round(fr)).max() > 1e-4:
-        return False, f"displacement {d.tolist()} differs from q - p = {diff.tolist()} by a non-lattice vector (fractions {fr.tolist()})"
-    # d is an image of diff (checked above): the images of diff are d + M
-    best = min(float(((d + i * box[0] + j * box[1] + k * box[2]) ** 2).sum()) for i, j, k in itertools.product(range(-3, 4), repeat=3))
-    h2 = float(smallest_height2(bi))
-    mine = float((d ** 2).sum())
-    if mine > best + 1e-4 and (is_orthorhombic(bi) or best < h2 / 4 - 1e-4):
-        return False, f"displacement {d.tolist()} (length^2 {mine}) is not the shortest image (length^2 {best}) of {diff.tolist()} in box {BOXES[bi]}"
-    return True, f"displacement {d.tolist()}"
+    bi, shape = w["bi"], SHAPES[w["shape"]]
+    sp, sq = shape.split()
+    P = np.array(w["p"], dtype=np.float32)
+    Q = np.array(w["q"], dtype=np.float32)
+    mk = lambda pts, code: pts[0] if code == "(3,)" else (pts[:2] if code == "(2,3)" else pts[:2][None])
+    box = None if bi is None else np.array(BOXES[bi], dtype=np.float32)
+    d = np.asarray(struc.displacement(mk(P, sp), mk(Q, sq), box=box), dtype=np.float64).reshape(-1, 3)
+    n = len(d)
+    for r in range(n):
+        p = P[r if sp != "(3,)" else 0].astype(np.float64)
+        q = Q[r if sq != "(3,)" else 0].astype(np.float64)
+        diff = q - p
+        if box is None:
+            if np.abs(d[r] - diff).max() > 1e-4:
+                return False, f"displacement row {r} = {d[r].tolist()}, q - p = {diff.tolist()} (shapes {shape})"
+            continue
+        b = box.astype(np.float64)
+        fr = np.linalg.solve(b.T, (d[r] - diff))
+        if np.abs(fr - np.round(fr)).max() > 1e-3:
+            return False, f"displacement row {r} = {d[r].tolist()} differs from q - p = {diff.tolist()} by a non-lattice vector (fractions {fr.tolist()}, shapes {shape})"
+        best = min(float(((d[r] + i * b[0] + j * b[1] + k * b[2]) ** 2).sum()) for i, j, k in itertools.product(range(-3, 4), repeat=3))
+        h2 = float(smallest_height2(bi))
+        mine = float((d[r] ** 2).sum())
+        if mine > best + 1e-3 and (is_orthorhombic(bi) or best < h2 / 4 - 1e-3):
+            return False, f"displacement row {r} = {d[r].tolist()} (length^2 {mine}) is not the shortest image (length^2 {best}) in box {BOXES[bi]}"
+    return True, "ok"
 
 
 def ob_displacement(tier):
-    """p = 0, q symbolic: displacement() only uses q - p"""
+    """points are symbolic multiples of 1/8; every combination of argument shapes; with and without a box"""
     geo, _ = mods()
     cases = []
     LIM = 200 if tier == "quick" else 1000
-    R = 2
-    allM = [m for m in itertools.product(range(-R, R + 1), repeat=3) if m != (0, 0, 0)]
-    for bi in range(len(BOXES) if tier == "thorough" else 5):
-        Q = [z3.Int(f"q{d}") for d in "xyz"]
-        base = [z3.And(v >= -LIM, v <= LIM) for v in Q]
-        ortho = is_orthorhombic(bi)
-        groups = [allM] if ortho else [[]]      # triclinic cells: shortest-image clause is decided on the kernel (ob_triclinic_kernel)
-        for gi, Ms in enumerate(groups):
-          def run(bi=bi, Q=Q, ortho=ortho, Ms=Ms):
-              box = rnp.RNP.array([[CRat(Fraction(x)) for x in row] for row in BOXES[bi]])
-              p = rnp.RNP.array([CRat(0, 8) for _ in range(3)])
-              q = rnp.RNP.array([CRat(v, 8) for v in Q])
-              from vf.kx import rat as _rat
-              rnp.FORK, _rat.FLOOR_BY_FRESH_VAR = (not ortho), True
-              try:
-                  d = geo.displacement(p, q, box=box)
-              finally:
-                  rnp.FORK, _rat.FLOOR_BY_FRESH_VAR = False, False
-              dv = [d.data[k] for k in range(3)]
-              diff = [CRat(Q[k], 8) for k in range(3)]
-              b = frac_box(bi)
-              inv, _ = inv3(b)
-              conds = []
-              # (d - diff) expressed in cell vectors has integer components
-              delta = [dv[k] - diff[k] for k in range(3)]
-              fd = []
-              for j in range(3):
-                  f = delta[0] * CRat(inv[0][j]) + delta[1] * CRat(inv[1][j]) + delta[2] * CRat(inv[2][j])
-                  conds.append(_t(f) == z3.ToReal(z3.ToInt(_t(f))))
-                  fd.append(dv[0] * CRat(inv[0][j]) + dv[1] * CRat(inv[1][j]) + dv[2] * CRat(inv[2][j]))
-              # |d|^2 <= |d + M|^2  <=>  2 d.M + |M|^2 >= 0 (linear in d) for every lattice vector M within +-3 cells
-              others = []
-              for i, j, k in Ms:
-                  M = [i * b[0][t] + j * b[1][t] + k * b[2][t] for t in range(3)]
-                  m2 = sum(x * x for x in M)
-                  lin = (dv[0] * CRat(2 * M[0]) + dv[1] * CRat(2 * M[1]) + dv[2] * CRat(2 * M[2])) + CRat(m2)
-                  others.append((M, _t(lin) >= 0))
-              if ortho:
-                  conds += [c for _, c in others]
-              else:
-                  # where some image is shorter than half the smallest cell height, d is that image: no OTHER image d + M is
-                  # that short (two images shorter than h/2 cannot coexist, so this is the statement's clause)
-                  h2 = smallest_height2(bi)
-                  lim = z3.RealVal(str(h2 / 4))
-                  for M, _ in others:
-                      img = [dv[t] + CRat(M[t]) for t in range(3)]
-                      conds.append(_t(img[0] * img[0] + img[1] * img[1] + img[2] * img[2]) >= lim)
-              return z3.And(*conds)
-          cases.append(Case(f"displacement in box {BOXES[bi]}" + ("" if ortho else " (lattice-vector clause)"), base, run,
-                            dict(bi=bi, p=[0, 0, 0], q=[z3.ToReal(v) / 8 for v in Q]), real_displacement, timeout=900, solver_ms=120000))
+    allM = [m for m in itertools.product(range(-2, 3), repeat=3) if m != (0, 0, 0)]
+    plans = [(None, si) for si in range(len(SHAPES))]
+    for bi in (QUICK_BOXES if tier == "quick" else range(len(BOXES))):
+        plans.append((bi, 0))
+    for bi in (0, 4, 6):          # orthorhombic, monoclinic, rotated orthorhombic
+        plans += [(bi, si) for si in (1, 2, 4)]
+    for bi, si in plans:
+        sp, sq = SHAPES[si].split()
+        P = [[z3.Int(f"p{r}{d}") for d in "xyz"] for r in range(2)]
+        Q = [[z3.Int(f"q{r}{d}") for d in "xyz"] for r in range(2)]
+        if si == 0 or bi is None:
+            base = [z3.And(v >= -LIM, v <= LIM) for row in P + Q for v in row]
+        else:
+            # two point pairs through a box: smaller range (the shape dispatch is what these cases add)
+            base = [z3.And(v >= -40, v <= 40) for row in P + Q for v in row]
+        if si == 0:
+            base += [v == 0 for v in P[0]]        # one point pair: only q - p matters
+        ortho = bi is not None and is_orthorhombic(bi)
+
+        def run(bi=bi, sp=sp, sq=sq, P=P, Q=Q, ortho=ortho):
+            box = None if bi is None else rnp.RNP.array([[CRat(Fraction(x)) for x in row] for row in BOXES[bi]])
+            pp = [[CRat(v, 8) for v in row] for row in P]
+            qq = [[CRat(v, 8) for v in row] for row in Q]
+            from vf.kx import rat as _rat
+            rnp.FORK, _rat.FLOOR_BY_FRESH_VAR = (bi is not None and not ortho), True
+            try:
+                d = geo.displacement(_mk(pp, sp), _mk(qq, sq), box=box)
+            finally:
+                rnp.FORK, _rat.FLOOR_BY_FRESH_VAR = False, False
+            rows = _rows(d)
+            nrows = 1 if (sp == "(3,)" and sq == "(3,)") else 2
+            if len(rows) != nrows:
+                return False
+            conds = []
+            for r in range(nrows):
+                dv = rows[r]
+                pr, qr = pp[r if sp != "(3,)" else 0], qq[r if sq != "(3,)" else 0]
+                diff = [qr[k] - pr[k] for k in range(3)]
+                if bi is None:
+                    conds += [_t(dv[k]) == _t(diff[k]) for k in range(3)]
+                    continue
+                b = frac_box(bi)
+                inv, _ = inv3(b)
+                delta = [dv[k] - diff[k] for k in range(3)]
+                for j in range(3):
+                    f = delta[0] * CRat(inv[0][j]) + delta[1] * CRat(inv[1][j]) + delta[2] * CRat(inv[2][j])
+                    conds.append(_t(f) == z3.ToReal(z3.ToInt(_t(f))))
+                if ortho:
+                    # |d|^2 <= |d + M|^2  <=>  2 d.M + |M|^2 >= 0 (linear in d) for every lattice vector M within +-2 cells
+                    for i, j, k in allM:
+                        M = [i * b[0][t] + j * b[1][t] + k * b[2][t] for t in range(3)]
+                        m2 = sum(x * x for x in M)
+                        lin = (dv[0] * CRat(2 * M[0]) + dv[1] * CRat(2 * M[1]) + dv[2] * CRat(2 * M[2])) + CRat(m2)
+                        conds.append(_t(lin) >= 0)
+            return z3.And(*conds)
+        label = f"displacement shapes {SHAPES[si]}, " + ("no box" if bi is None else f"box {BOXES[bi]}" + ("" if ortho else " (lattice-vector clause; shortest image: kernel obligation)"))
+        cases.append(Case(label, base, run,
+                          dict(bi=bi, shape=si, p=[[z3.ToReal(v) / 8 for v in row] for row in P], q=[[z3.ToReal(v) / 8 for v in row] for row in Q]),
+                          real_displacement, timeout=900, solver_ms=120000))
     return cases
 
 
